@@ -36,6 +36,7 @@
 //	srv.ResetLog()
 //	srv.SetDB(db)                swap the database (requests in flight keep the old one)
 //	srv.SetFixtures(fx)          swap the fixtures
+//	srv.CloseClientConnections() drop idle keep-alive connections (call after every lint run, see the method)
 //	promsrv.Shared()             one lazily started server per process, never closed: property tests that run
 //	                             thousands of cases should reuse it (SetDB + ResetLog per case) instead of opening a
 //	                             listener per case - loopback ports in TIME_WAIT run out otherwise
@@ -491,6 +492,12 @@ func Shared() *Server {
 	sharedOnce.Do(func() { shared = New(&DB{}, DefaultFixtures()) })
 	return shared
 }
+
+// CloseClientConnections drops every connection clients still hold open (keep-alive). pint creates a new HTTP
+// transport for every lint run and never closes its idle connections (they linger for the transport's 90s idle
+// timeout), so a test that runs thousands of lint runs against one server must call this after each run or the
+// process runs out of file descriptors.
+func (s *Server) CloseClientConnections() { s.hs.CloseClientConnections() }
 
 func (s *Server) Close() {
 	s.hs.CloseClientConnections()
